@@ -181,3 +181,85 @@ def balance_instances(ctx, rule):
                      bad or "balance of (config.eligible_collateral, env.contract.address) at every root of the call graph")
     if n_sites == 0:
         ctx.lost(rule, "engine call sites of the balance query")
+
+
+def sizing_instances(ctx, em, rule, reply_keys=("Liquidate>id6", "Liquidate>id7"), verified=None):
+    """the function that sizes an insurance top-up from the vault balance (found by behaviour: reads the balance itself
+    and emits the insurance Withdraw) credits exactly the figure it is handed - available = balance + <its own parameter>,
+    nothing re-derived from storage - and the listed reply steps hand it zero or the return value of a helper in
+    `verified` (short names).  Shared by C07 (R07.5) and C13 (R13.7)."""
+    from .. import model
+    from .posflow import ENG
+    ix, w = ctx.ix, ctx.world
+    if verified is None:
+        verified = set()
+    sizers = {}
+    for f in sorted(w.crate_fns(ENG), key=lambda f: f.pretty):
+        if f.derived or "::_::" in f.pretty or f.kind == "Closure":
+            continue
+        try:
+            oks = ix.ok_paths(f)
+        except Exception:
+            continue
+        for pth in oks:
+            if not any(e.target is not None and any(e.target.key == b.key for b in balance_fns(ctx)) for e in pth.events):
+                continue   # the sizing function is the one that reads the balance itself
+            for s_ in model.path_submsgs(ix, pth):
+                mv = ix.msg_variant(s_.inner_msg()) if s_.inner_msg() is not None else None
+                if not (mv and mv[1] == "Withdraw"):
+                    continue
+                amt = ix.inline(mv[2]["amount"])
+                if not any(is_balance_value(ctx, x) for x in sym.walk(amt)):
+                    continue
+                # the top-up is  <amount to pay> - (balance [+ credited figure])  and nothing else
+                from ..norm import N as _N, match as _match, hole as _hole, anyhole as _any
+                nf = _N(ix, amt)
+                bal_h = _hole("balance", lambda v: is_balance_value(ctx, v))
+                mm = _match(("sub", _any("pay"), ("add", bal_h, _any("credit"))), nf) or _match(("sub", _any("pay"), ("add", _any("credit"), bal_h)), nf)
+                credited = "?"
+                if mm is not None and mm["credit"][0] == "leaf":
+                    credited = ix.inline(mm["credit"][1])
+                elif mm is None and _match(("sub", _any("pay"), bal_h), nf) is not None:
+                    credited = None
+                sizers.setdefault(f.key, []).append((credited, nf))
+    if not sizers:
+        ctx.lost(rule, "the function that sizes an insurance top-up from the vault balance")
+    for k, creds in sorted(sizers.items()):
+        f = w.fns[k]
+        bad = None
+        pidx = None
+        for (c_, nf_) in creds:
+            if c_ is None:
+                continue   # balance alone: nothing is credited
+            if c_ != "?" and tag(c_) == "param" and payload(c_)[0] == f.key:
+                pidx = payload(c_)[1]
+            elif c_ == "?" or not (tag(c_) == "int"):
+                from .. import norm as _norm
+                bad = bad or "sizes the top-up as %s: not <payout> - (balance + the figure it was handed)" % _norm.show(nf_)[:200]
+        ctx.inst(rule, "credits-what-it-is-told:%s" % short_fn(f), bad is None, f.where(), bad or "available = balance + parameter #%s" % pidx)
+        if pidx is None:
+            continue
+        for ckey in reply_keys:
+            st = em.reply_step(ckey)
+            if st is None:
+                continue
+            badc = None
+            ncalls = 0
+            for q in st.ok_paths():
+                for e in q.events:
+                    if e.target is None or e.target.key != k or pidx >= len(e.args):
+                        continue
+                    ncalls += 1
+                    a = ix.inline(e.args[pidx])
+                    a0 = a
+                    while tag(a0) in ("unwrap",):
+                        a0 = kids(a0)[0]
+                    ok_ = tag(a0) == "int" and int(payload(a0)[0]) == 0
+                    if tag(a0) == "call":
+                        t_ = ix.call_target(a0)
+                        ok_ = ok_ or (t_ is not None and short_fn(t_) in verified)
+                    if not ok_:
+                        badc = badc or "is told %s, which is not the amount the realising helper queued" % sym.show(a, 5)
+            if ncalls:
+                ctx.inst(rule, "told-the-queued-amount:%s" % ckey, badc is None, st.fn.where(), badc or "%d calls: zero or the realising helper's return value" % ncalls)
+
